@@ -18,46 +18,11 @@ LENSES = {
 }
 
 
-def ops_in(t, acc):
-    """all op names occurring in an AST"""
-    if isinstance(t, dict):
-        c = t.get("c")
-        if c in ("Un", "Bin"):
-            acc.add(t["op"]["n"])
-        elif c == "Red":
-            acc.add(t["op"])
-        elif c == "Con":
-            acc.add(t["red"])
-            acc.add(t["bin"])
-        for v in t.values():
-            ops_in(v, acc)
-    elif isinstance(t, list):
-        for v in t:
-            ops_in(v, acc)
-    return acc
-
-
-def has_negative_leaf(t):
-    if isinstance(t, dict):
-        if t.get("c") == "Ten":
-            return any(s[0] == "NI" or (s[0] == "R" and s[1] < 0) or (s[0] == "L" and s[1] < s[2]) for s in t["data"])
-        if t.get("c") == "Num":
-            s = t["v"]
-            return s[0] == "NI" or (s[0] == "R" and s[1] < 0) or (s[0] == "L" and s[1] < s[2])
-        return any(has_negative_leaf(v) for v in t.values())
-    if isinstance(t, list):
-        return any(has_negative_leaf(v) for v in t)
-    return False
-
-
 def in_carrier(e):
     """C02 is stated within the carrier of the semiring a rule relies on: non-negative data
     where max or min is paired with mul.  Events outside it are not judged (and counted)."""
-    names = ops_in(e["lhs"], set()) | ops_in(e.get("rhs"), set())
-    if names & {"max", "min", "amax", "amin"} and names & {"mul", "prod", "pow", "truediv", "reciprocal"}:
-        if has_negative_leaf(e["lhs"]) or has_negative_leaf(e.get("rhs")):
-            return False
-    return True
+    from harness.modes_carrier import in_carrier as ic
+    return ic(e["lhs"], e.get("rhs"))
 
 
 def judge_events(out, events, prop, sig_of):
